@@ -61,6 +61,7 @@ type Ctx struct {
 	Stats       map[string]int
 	Samples     []interface{}
 	Exceptions  []string
+	NotDecided  []string
 	Known       []knownEntry
 	KnownHit    []string
 	Variants    []string
